@@ -22,6 +22,7 @@ mod s_c12;
 mod s_c13;
 mod s_c14;
 mod s_c15;
+mod s_c16;
 mod s_c19;
 mod s_c20;
 mod s_smoke;
@@ -84,6 +85,7 @@ fn main() {
         "C13" => s_c13::run(&mut em, thorough, seed),
         "C14" => s_c14::run(&mut em, thorough, seed),
         "C15" => s_c15::run(&mut em, thorough, seed),
+        "C16" => s_c16::run(&mut em, thorough, seed),
         "C19" => s_c19::run(&mut em, thorough, seed),
         "C20" => s_c20::run(&mut em, thorough, seed),
         "smoke" => s_smoke::run(&mut em),
